@@ -141,7 +141,7 @@ TSpec == TInit /\ [][TNext_]_tvars
 \* high-water mark of consumed lines (register 1); needs -workers 1.  With env DIAG=1 (second pass
 \* of the runner over a rejected run) register 2 holds, for the line that is next, why a readout would
 \* be rejected together with the bounds.
-DiagOn == IOEnv.DIAG = "1"
+DiagOn == "DIAG" \in DOMAIN IOEnv /\ IOEnv.DIAG = "1"
 Diag == IF DiagOn /\ l <= N /\ Rec[l].ev = "ReadoutEnd" /\ rOpen
         THEN LET items == Rec[l].items
                  idx == KeyIdx(items)
